@@ -680,6 +680,7 @@ func runC08(c *Ctx) {
 	}
 	c08Colons(c, target)
 	checkEffectiveProperty(c, "R08.4", target, "properties/align", "PropertyType")
+	importPropertyStore(c, "R08.4")
 }
 
 // c08Line: pipe bookkeeping of one markdown line (shape rule).
